@@ -692,6 +692,29 @@ example : cclassOf (bytesOf "al") = none ∧ cclassOf (bytesOf "") = none ∧ cc
     wfnmatch (FnFlags.ofNat 0) (bytesOf "[[::]]") (bytesOf "a") = 1 ∧
     wfnmatch (FnFlags.ofNat 0) (bytesOf "[[:alpha:]]") (bytesOf "a") = 0 := by decide
 
+/-- ESCAPED PERIOD AFTER `*` (repair F41).  POSIX: a leading period must be matched by a period
+    that is the FIRST character of the pattern (or follows a `/` under FNM_PATHNAME) — so neither
+    `*.c` nor `*\.c` may match `.c` under FNM_PERIOD (glibc agrees).  The `*.` entry rule of the code
+    looked only at a plain `.`; `dotNext` (and with it the mark of `.star`) now covers the escaped
+    form as well, unless FNM_NOESCAPE makes the backslash an ordinary character. -/
+theorem fnmatch_escaped_period :
+    wfnmatch (FnFlags.ofNat 4) (bytesOf "*\\.c") (bytesOf ".c") = 1 ∧
+    wfnmatch (FnFlags.ofNat 4) (bytesOf "*.c") (bytesOf ".c") = 1 ∧
+    wfnmatch (FnFlags.ofNat 5) (bytesOf "a/*\\.c") (bytesOf "a/.c") = 1 ∧
+    wfnmatch (FnFlags.ofNat 4) (bytesOf "a/*\\.c") (bytesOf "a/.c") = 0 ∧
+    wfnmatch (FnFlags.ofNat 4) (bytesOf "*\\.c") (bytesOf "x.c") = 0 ∧
+    wfnmatch (FnFlags.ofNat 4) (bytesOf "\\.c") (bytesOf ".c") = 0 ∧
+    wfnmatch (FnFlags.ofNat 0) (bytesOf "*\\.c") (bytesOf ".c") = 0 ∧
+    tokenize (FnFlags.ofNat 4) 5 (bytesOf "*\\.c") = [.star true, .lit 46, .lit 99] ∧
+    tokenize (FnFlags.ofNat 6) 5 (bytesOf "*\\.c") = [.star false, .lit 92, .lit 46, .lit 99] ∧
+    (∀ fl p1, dotNext fl p1 = true → ∃ p2, tokenize fl (p1.length + 1) p1 = .lit cDot :: tokenize fl (p2.length + 1) p2) := by
+  refine ⟨by decide, by decide, by decide, by decide, by decide, by decide, by decide, by decide, by decide, ?_⟩
+  intro fl p1 h
+  exact dotNext_toks fl p1 h
+
+example : dotNext (FnFlags.ofNat 4) (bytesOf "\\.c") = true ∧ dotNext (FnFlags.ofNat 6) (bytesOf "\\.c") = false := by
+  decide
+
 /-- NO RECURSION BUDGET: `wfnmatch` is iterative (one remembered retry point, no recursion, no
     depth limit), so `FNM_NOMATCH` is never a resource verdict.  In the model the loop gets the fuel
     `(|pat|+2)·(|str|+2)+8`; for EVERY pattern and subject, however long or star-laden, it ends within
@@ -708,7 +731,7 @@ example : wfnmatch (FnFlags.ofNat 0) (bytesOf "*a*a*a*a*a*a*a*a*b") (bytesOf "aa
 /-- FNM_PERIOD INCLUDED.  `MatchesP` is the position-aware declarative semantics for every flag
     set: as `Matches`, but (1) a wildcard (`?`, bracket, `*`) never consumes a LEADING period under
     FNM_PERIOD (leading = start of the string, or right after `/` under FNM_PATHNAME), and (2) a
-    `*` directly followed by an unescaped `.` cannot start where a wildcard could consume nothing
+    `*` directly followed by a `.` written in the pattern (plain, or escaped: repair F41) cannot start where a wildcard could consume nothing
     (end of string, `/` under FNM_PATHNAME, leading period under FNM_PERIOD) — the glibc-style
     reading of `*.` that the code implements.  The mirror of the code's loop answers 0 EXACTLY
     when `MatchesP` holds, ends with 0 or 1, and the specification `fnmatchSpec` (reference matcher
